@@ -48,6 +48,7 @@ def run(report, tier, seed):
                 continue
             report.count("models")
             _pairs(report, lab, lean, 3 if quick else 12, seed)
+        _long_streams(report, sc, ybin, lean, seed, quick)
         _some_none_witness(report, sc, ybin, lean)
         lean.close()
 
@@ -74,12 +75,35 @@ def _some_none_witness(report, sc, ybin, lean):
                          "copying through Python changes the value")
 
 
-def _pairs(report, lab, lean, n_sets, seed):
+def _long_streams(report, sc, ybin, lean, seed, quick):
+    """streams much longer than the 64 KiB staging buffers of both runtimes, made of multi-byte variable-length integers so that values straddle
+    every buffer boundary: written by one language, copied by the other (binary and through NDJSON)"""
+    import random
+    P = lambda n: ("prim", n)
+    pkg = modelgen.Package("Lng")
+    pkg.defs.append({"kind": "record", "name": "Ev", "tparams": [], "fields": [("t", P("int64")), ("id", P("uint64")), ("v", P("int32")), ("name", P("string"))]})
+    pkg.defs.append({"kind": "protocol", "name": "PLong", "steps": [("hdr", P("string"), False), ("events", ("named", "Ev", []), True), ("counts", P("uint64"), True), ("tail", P("int32"), False)]})
+    lab = codeclab.Lab(sc, ybin, 3000, modelgen.Gen(seed * 100129 + 3000, json_safe=True, cpp_json_safe=True), pkg=pkg, ndjson=True).prepare()
+    if not lab.ok:
+        report.violation(f"{lab.stage}:model", {"seed": seed, "model_index": lab.idx, "error": lab.err, "files": _files(lab)}, "")
+        return
+    r = random.Random(seed * 77 + 3)
+    for shift in ((0, 1) if quick else (0, 1, 2, 3, 5, 8)):
+        n = 9000 if quick else 30000
+        events = [["rec", [["i", 1700000000000000000 + r.randrange(10**12) * (1 if i % 7 else -1)], ["i", 2**63 + r.randrange(2**62)], ["i", r.randrange(-2**31, 2**31)],
+                           ["s", ("e%d" % (i % 97)).encode().hex()]]] for i in range(n)]
+        counts = [["i", r.choice([2**64 - 1, 2**56 + i, 2**35 + i, 300 + i])] for i in range(n // 2)]
+        vals = [["single", ["s", ("x" * shift).encode().hex()]], ["stream", events], ["stream", counts], ["single", ["i", 7]]]
+        _pairs(report, lab, lean, 1, seed, fixed_vals=vals, only=("cpp-bin->py-bin", "py-bin->cpp-bin") + (() if quick and shift else ("py-bin->cpp-ndjson->py-bin",)))
+        report.count("long-streams")
+
+
+def _pairs(report, lab, lean, n_sets, seed, fixed_vals=None, only=None):
     g = lab.gen
     for pname, pj in lab.protos.items():
         nstreams = sum(1 for s in pj if s["stream"])
         for k in range(n_sets):
-            vals = g.gen_step_vals(pj)
+            vals = fixed_vals if fixed_vals is not None else g.gen_step_vals(pj)
             parts = [g.gen_partition(len(v[1])) if v[0] == "stream" else [] for v in vals]
             ref = bytes.fromhex(lean.ask({"op": "enc_proto", "proto": pj, "parts": parts, "vals": vals, "schema": lab.schemas[pname]})["hex"])
             inp = lab.tmp(".ref.bin")
@@ -114,6 +138,8 @@ def _pairs(report, lab, lean, n_sets, seed):
                 "py-bin->cpp-ndjson->py-bin": [(py, "b", "b"), (cpp, "b", "j"), (py, "j", "b")],
             }
             for name, chain in chains.items():
+                if only is not None and name not in only:
+                    continue
                 src = inp
                 failed = None
                 for fn, a, b in chain:
